@@ -62,6 +62,7 @@ fn main() {
         "C06" => c06::run(tier),
         "C07" => c07::run(tier),
         "C08" => c08::run(tier),
+        "C08free" => c08::run_free(tier),
         "C09" => c09::run(tier),
         "C10" => c10::run(tier),
         "C11" => c11::run(tier),
